@@ -1,4 +1,4 @@
 SPECIFICATION Spec
-CONSTANTS PairSrc = "file" CtxU = "ops3" MaxFlow = 3 KeyU = "six"
+CONSTANTS PairSrc = "file" CtxU = "ops3" MaxFlow = 3 KeyU = "six" Writ = "ends"
 INVARIANT EmitFlow
 CHECK_DEADLOCK FALSE
